@@ -49,7 +49,8 @@ PROP = {
         "extracted_delayMw_eq_model", "extracted_applyDelay_eq_model",
     ]],
     "harness": "c19",
-    "race": True,          # cases run on 16 goroutines and share one Throttle: data races in shared middleware state would show
+    "race": False,         # a sequential property: the middlewares hold no mutable state (Throttle's ticker is only received from); a
+                           # race build would add the race runtime's 1 s exit sleep to every corpus replay for nothing
     "driver": "drv_c19",
     "nontrivial": nontrivial,
     "classify": classify,
@@ -86,7 +87,6 @@ PROP = {
         "extractor harness/cmd/extract/c19.go (go/ast printer of five bodies + structural facts) and the interpreters "
         "WmModel/GoMw.lean as the semantics of those Go statements",
         "differential harness harness/cmd/c19 + Lean driver Driver/C19.lean (model printer and the independently written monitor)",
-        "Go race detector for data-race freedom of the shared Throttle / DelayOnError values (runtime fact, not a theorem)",
     ],
     "assumptions": [
         "handlers leave on the message the context they found (CtxNeutral); a handler that itself replaces the message context "
